@@ -27,6 +27,8 @@ def run(ctx):
     ctx.guarded('R18c', LOADC, lambda: r18c(ctx))
     ctx.guarded('R18d', 'register_shards', lambda: r18d(ctx))
     ctx.guarded('R18d', 'load_from_file', lambda: fresh_unfiltered_loads(ctx))
+    ctx.rule('R18e', 'the keyed-shard exporter advances its file entry index by the records it wrote, 1 + n*(1+V) + E (= C09-R09b): the file lookup table of the exported shard points at the records that were kept')
+    ctx.guarded('R18e', EXP, lambda: _r18e(ctx))
 
 
 def r18a(ctx):
@@ -309,3 +311,9 @@ def fresh_unfiltered_loads(ctx):
                     fresh = True
         ctx.check(fresh, 'R18d', b['qpath'], 'load_from_file.path', a.loc(bi), 'the unfiltered loader is applied to a shard file this function has just written',
                   'MDBShardFile::load_from_file (no expiry filter) is applied to a pre-existing path (%s): an expired keyed shard can be loaded' % flow.show(v)[:60])
+
+
+def _r18e(ctx):
+    from . import rules_c09 as c09
+    from .rules_c11 import _Alias
+    c09.r09b(_Alias(ctx, 'R09b', 'R18e'))
